@@ -21,6 +21,59 @@ from .c02 import numbering
 from .c01 import dedupe
 
 
+def _label_equality_covers_site_id(ck):
+    """PositionWithSiteId: True when == compares siteId (a dataclass with generated __eq__ whose siteId field takes part),
+    False when it positively does not (field(compare=False) on siteId, eq=False), None when not recognised (hand-written __eq__)."""
+    cls = ck.ctx.p.find_class("PositionWithSiteId")
+    if cls is None or not cls.is_dataclass:
+        return None
+    if "__eq__" in cls.methods or "__hash__" in cls.methods or cls.bases:
+        return None
+    deco = next((d for d in cls.node.decorator_list if "dataclass" in ast.unparse(d)), None)
+    if isinstance(deco, ast.Call):
+        for k in deco.keywords:
+            if k.arg == "eq" and isinstance(k.value, ast.Constant) and k.value.value is False:
+                return False
+            if k.arg == "eq" and not isinstance(k.value, ast.Constant):
+                return None
+    for st in cls.node.body:
+        if isinstance(st, ast.AnnAssign) and isinstance(st.target, ast.Name) and st.target.id == "siteId":
+            if st.value is None:
+                return True
+            if isinstance(st.value, ast.Call) and ast.unparse(st.value.func).split(".")[-1] == "field":
+                for k in st.value.keywords:
+                    if k.arg == "compare":
+                        if isinstance(k.value, ast.Constant):
+                            return bool(k.value.value)
+                        return None
+                return True
+            return True
+    return None
+
+
+def _count_truncated_window(t):
+    """W[:c] / W[:k][:c] (c a constant int), alone or as a member of a concatenation whose members are all slices of one recognised
+       window W: returns the offending slice term, else None (anything else stays unrecognised - a refusal, not a report)."""
+    members = list(t[1]) if t[0] == "concat" else [t]
+    hit = None
+    for m in members:
+        inner, consts = m, []
+        while inner[0] == "slice":
+            if inner[4] != T.NONE:
+                return None
+            consts.append((inner[2], inner[3]))
+            inner = inner[1]
+        if not consts or as_window(inner) is None:
+            return None
+        lo, hi = consts[0]                       # the outermost slice
+        from_low_end = all(l == T.NONE for l, _ in consts)
+        if from_low_end and hi[0] == "c" and isinstance(hi[1], int) and not isinstance(hi[1], bool) and hi[1] >= 0 and len(consts) >= 2:
+            hit = hit or m
+        elif from_low_end and hi[0] == "c" and isinstance(hi[1], int) and not isinstance(hi[1], bool) and hi[1] >= 0 and t[0] != "concat":
+            hit = hit or m
+    return hit
+
+
 def as_window(t):
     """list(takewhile(lambda x: x.position <= H, dropwhile(lambda x: x.position < L, SRC)))
        -> dict(src, lo, hi, lo_incl, hi_incl)  (L, H as terms; bound variable position = ('attr', bv, 'position'))"""
@@ -447,6 +500,15 @@ def run(ck):
                 raise AnalysisError(f"{we}: query candidate is not drawn from a window")
             win = as_window(q[1])
             if win is None:
+                cut = _count_truncated_window(q[1])
+                if cut is not None:
+                    ck.violation("C12.1", short(cand_fn) + ":every-query-label:count", we,
+                                 "the candidates are a recognised window cut down by *count* (a slice with a constant end taken from the "
+                                 "window's low end): of several labels on one side of the reference label only the first - the farthest - "
+                                 "is offered, so a reference label and a query label that are each other's nearest partner within "
+                                 "maxDistance are not paired as soon as a second label lies on that side",
+                                 found=T.show(cut)[:160], required="every label of the window is a candidate")
+                    continue
                 raise AnalysisError(f"{we}: candidate window idiom not recognised: {T.show(q[1])[:200]}")
             want_lo, want_hi = T.p_sub(adj, d), T.p_add(adj, d)
             ck.judge(win["lo"] == want_lo and win["lo_incl"], "C12.1", short(cand_fn) + ":lower", we,
@@ -515,6 +577,24 @@ def run(ck):
                 cond[2][3][0][0] == E_D and cond[2][2] == T.mk_attr(T.mk_attr(cond[2][2][1][1], side), "siteId") \
                 if cond[0] == "notin" and cond[2][0] == "comp" and cond[2][2][0] == "attr" and cond[2][2][1][0] == "attr" else False
             src_ok = it == (E_R if side == "reference" else E_Q)
+            if not okc and cond[0] == "notin" and cond[1] == bv and cond[2][0] == "comp" and cond[2][3][0][0] == E_D \
+                    and cond[2][2][0] == "attr" and cond[2][2][2] == side and cond[2][2][1][0] == "bv":
+                # membership of the label object itself in the labels of the kept pairs: the same complement as long as two labels are
+                # equal only when their label numbers are (decided from the label class: a dataclass that compares siteId)
+                eq = _label_equality_covers_site_id(ck)
+                if eq is True:
+                    okc = True
+                elif eq is False:
+                    ck.violation("C12.3", short(un_fn) + ":" + side + ":label-identity", wu,
+                                 f"unpaired {side} labels are selected by membership of the label object, and two labels of the label class "
+                                 "are equal without having the same label number: an unpaired label that shares its coordinate with a "
+                                 "paired label of the same map is dropped - the labels of the window are no longer each returned once",
+                                 found=T.show(c0)[:200], required="membership by siteId, or a label class whose equality includes siteId")
+                    sides[side] = (False, src_ok, c0)
+                    continue
+                else:
+                    raise AnalysisError(f"{wu}: unpaired {side} labels are selected by membership of the label object and the equality of "
+                                        f"the label class is not recognised")
             sides[side] = (okc, src_ok, c0)
             ck.judge(bool(okc) and src_ok, "C12.3", short(un_fn) + ":" + side, wu,
                      f"unpaired {side} labels = labels of the {side} list whose siteId is in no kept pair",
